@@ -38,10 +38,11 @@ ASSUMPTIONS = [
     "(same bits); Bit/bool<->Bit/bool, literals 0/1 and '0'/'1' to Bit/bool (true = '1'); Null/Full to Bit and "
     "vectors (fill); representable int literals to Unsigned/Signed: may be accepted and then must hold the value",
     "must reject: narrowing, Signed<->Unsigned of equal width, Signed->narrower Unsigned, any width-mismatched "
-    "BitVector (incl. str literal) assignment, Bit<->vector, int literal outside the target range (Bit/bool: other "
-    "than 0/1)",
+    "BitVector (incl. str literal) assignment, Bit<->vector, int literal outside the target range (Bit: other "
+    "than 0/1); for the forms the statement does not list (initialisation, port connection, merges) an accepted "
+    "Bit<->1-bit-vector cell that keeps the bit is tolerated (first sentence: rejected or value preserved)",
     "unclassified (counted only): Signed->wider Unsigned, bool<->vector, Integer-typed values, int literal->BitVector, "
-    "Null/Full->bool, multi-character str->Bit/bool",
+    "int literal other than 0/1 -> bool, Null/Full->bool, multi-character str->Bit/bool",
     "port connections are judged in the direction of data flow (formal out port drives the actual)",
     "a may-accept cell that cohdl rejects is only counted; static errors in the VHDL of an accepted may-accept cell "
     "are reported as blocked_by_static (C06 owns them)",
@@ -62,7 +63,7 @@ def _cases(tier):
     if tier != "quick":
         # sampled larger widths: same table, every form, port / temp qualifiers only
         for c in C.cells([8, 16], forms=None):
-            if c["qual"] in ("port", "temp", "literal"):
+            if c["qual"] in ("port", "temp", "literal") and c["tgt"][0] in C.VEC and c["src"][0] not in ("bit", "bool"):
                 cs.append(c)
     singles, packs = [], {}
     for c in cs:
@@ -293,9 +294,17 @@ def check(case):
         out.labels.append(f"{cls}:accepted")
         out.labels.append(f"{c['form']}:{cls}:accepted")
         if cls == "reject":
+            S, T = c["src"], c["tgt"]
+            if (c["form"] not in C.EXPLICIT_FORMS and r.status == "accepted" and not r.sim_error and not r.mism
+                    and "bit" in (S[0], T[0]) and C.width(S) == 1 and C.width(T) == 1):
+                # initialisation / port / merge between Bit and a 1 bit vector that keeps the bit: "rejected or
+                # value preserved" holds
+                out.labels.append(f"reject:accepted_but_preserving:{c['form']}")
+                continue
             how = r.why or r.mism or "the emitted VHDL simulates without a difference on the representable values"
             out.add(_sig(c, "accepted_must_reject"),
-                    f"{name}: the statement requires a compile-time error, cohdl accepted the design.\n  {how}")
+                    f"{name}: the statement requires a compile-time error (no conversion can hold every source "
+                    f"value), cohdl accepted the design.\n  {how}")
             continue
         if r.status == "static":
             out.labels.append(f"static:{r.static[0][0]}:{c['form']}:{fam}")
